@@ -46,7 +46,10 @@ func loadKnown(path string) []KnownFinding {
 func matchKnown(kf []KnownFinding, v Violation) *KnownFinding {
 	for i := range kf {
 		k := &kf[i]
-		if k.Status != "known" || k.Property != v.Prop || k.Sub != v.Sub {
+		if k.Status != "known" || k.Property != v.Prop {
+			continue
+		}
+		if ok, _ := regexp.MatchString("^(?:"+k.Sub+")$", v.Sub); !ok {
 			continue
 		}
 		if k.Culprit != "" {
@@ -166,7 +169,9 @@ func cmdBatch(args []string) {
 	for _, r := range results {
 		for _, v := range r.Violations {
 			if v.Prop != *prop {
-				others[v.Class()]++
+				if matchKnown(kf, v) == nil {
+					others[v.Class()]++
+				}
 				continue
 			}
 			if k := matchKnown(kf, v); k != nil {
